@@ -15,6 +15,7 @@ import torch
 
 from . import dense as dn
 
+REACH = None               # the worker's Reach instance (per-case deltas of function call counts are read from it)
 MAX_FULL_NUMEL = 20000      # full()-based WF clause is skipped above this dense size
 
 
@@ -411,3 +412,10 @@ class Reach:
 
     def summary(self):
         return {'calls': dict(self.calls), 'lines': {k: sorted(v) for k, v in self.lines.items()}}
+
+
+def reach_counts(names):
+    """current call counts of the given torchtt functions (0 when the tracer is off)"""
+    if REACH is None:
+        return {n: 0 for n in names}
+    return {n: REACH.calls.get(n, 0) for n in names}
